@@ -3,6 +3,7 @@ import KitModel.SpiffeShape
 import KitProofs.Lemmas.Spiffe
 import KitProofs.Lemmas.SpiffeRenew
 import KitProofs.Lemmas.SpiffeSim
+import KitProofs.Lemmas.SpiffeDelta
 /-!
 Property C19 — SPIFFE: readiness never deadlocks; the latest good SVID is served and renewed at
 half-life.  Theorems about the models in `KitModel/Spiffe.lean` (helpers in
@@ -278,6 +279,55 @@ theorem renew_within_minute {dirOn : Bool} {a0 : Nat} {script : List Reply} {t0 
   · intro hsmall; rw [hstamp]; show s.now + d < s.renewAt + minute; omega
 
 example : ex0.mode = .waiting ∧ ex0.renewAt ≤ ex0.now + 1800000000000 ∧ ex1.log.length = 2 := by decide
+
+/-- **Renewal is requested within `δ` of half-life — over whole histories.**  Let the clock be advanced
+by ANY sequence of steps none of which overshoots by more than `δ` (each step is at most `δ` long, or
+ends at most `δ` after the deadline of the armed timer; `δ = 0` = the clock is advanced exactly to the
+wake times), with any issuer script and trust-anchor changes in between (`RReachD δ`).  Then
+(A) every request `r2` that follows a successful request `r1` — i.e. the renewal of `r1`'s
+certificate — is stamped in `[dueAt r1, dueAt r1 + δ]`, where `dueAt r1 = max(half-life of the
+certificate, the time it was issued)`; and (B) the request exists as soon as it is due: in no
+reachable state is the newest request a success whose half-life the clock has reached. -/
+theorem renewal_within_delta_of_half_life {δ : Int} (hδ : 0 ≤ δ) {dirOn : Bool} {a0 : Nat}
+    {script : List Reply} {t0 : Int} {s : RN} (h : RReachD δ dirOn a0 script t0 s) :
+    (∀ pre r2 r1 rest, s.log = pre ++ r2 :: r1 :: rest → r1.good = true →
+      dueAt r1 ≤ r2.stamp ∧ r2.stamp ≤ dueAt r1 + δ) ∧
+    (∀ r rest, s.log = r :: rest → r.good = true → s.now < r.half) := by
+  have ht := tinv_reach hδ h
+  obtain ⟨hl, hdue⟩ := rinv h.toRReach
+  constructor
+  · intro pre r2 r1 rest hlog hg
+    have := ht.pairs
+    rw [hlog] at this
+    exact pairOK_at pre r2 r1 rest this hg
+  · intro r rest hlog hg
+    obtain ⟨hren, hmode⟩ := ht.head r rest hlog hg
+    have hlt := not_due_lt hdue (by rw [hmode]; simp)
+    obtain ⟨hw, _, _⟩ := hl.waiting hmode
+    omega
+
+/-- **The statement's form**: a renewal request is issued no later than one minute after the
+certificate passes half of its validity.  For a certificate issued before its half-life, under the
+hypothesis of the previous theorem: the renewal request is stamped at or after half-life and at most
+`δ` after it — hence within `1 min + δ`, within one minute whenever `δ ≤ 1 min` (the clock is looked
+at at least once a minute), and exactly at half-life when `δ = 0`. -/
+theorem renew_no_later_than_minute_after_half_life {δ : Int} (hδ : 0 ≤ δ) {dirOn : Bool} {a0 : Nat}
+    {script : List Reply} {t0 : Int} {s : RN} (h : RReachD δ dirOn a0 script t0 s)
+    {pre : List Req} {r2 r1 : Req} {rest : List Req} (hlog : s.log = pre ++ r2 :: r1 :: rest)
+    (hg : r1.good = true) (hbefore : r1.stamp ≤ r1.half) :
+    r1.half ≤ r2.stamp ∧ r2.stamp ≤ r1.half + δ ∧ r2.stamp ≤ r1.half + minute + δ ∧
+    (δ ≤ minute → r2.stamp ≤ r1.half + minute) ∧ (δ = 0 → r2.stamp = r1.half) := by
+  obtain ⟨h1, h2⟩ := (renewal_within_delta_of_half_life hδ h).1 pre r2 r1 rest hlog hg
+  have hm := minute_pos
+  simp only [dueAt] at h1 h2
+  refine ⟨by omega, by omega, by omega, fun _ => by omega, fun _ => by omega⟩
+
+/-- Non-vacuity with `δ = 0`: a 100 s certificate; the clock is advanced exactly to the armed deadline
+(50 s = half-life, below the one-minute cap); the renewal request is stamped exactly there. -/
+def exD : RN := advance (start false 0 [.ok 0 100000000000, .ok 50000000000 150000000000] 0) 50000000000
+theorem exD_reach : RReachD 0 false 0 [.ok 0 100000000000, .ok 50000000000 150000000000] 0 exD :=
+  .adv _ (by decide) (Or.inr (by decide)) .start
+example : exD.log = [⟨50000000000, 1, true, 0, 100000000000⟩, ⟨0, 0, true, 0, 50000000000⟩] := by decide
 
 /-- **Failed renewals are retried every 10 s and do not disturb the served SVID.**  In every
 reachable state that waits for a retry: the newest request failed and the timer is armed for exactly
